@@ -91,7 +91,8 @@ class Context:
         self.extra.setdefault("floors", []).append(
             {"rule": rule, "what": what, "found": found, "minimum": minimum}
         )
-        if found < minimum and self.violations:
+        known_now = {k["key"] for k in load_known() if k.get("property") == self.prop}
+        if found < minimum and any(v["key"] not in known_now for v in self.violations):
             self.note(f"{rule}: {found} < {minimum} instance(s) of `{what}` (explained by the reported violation(s))")
         elif found < minimum:
             raise AnalysisError(
